@@ -240,22 +240,6 @@ fn purity(rep: &mut Report) {
     }
 }
 
-/// Spec node of `data` = 16 aligned subtrees of `sub` bytes followed by a tail shorter than `sub`
-/// (so the left child of the root is the complete 16*sub subtree): the sixteen subtree chaining
-/// values are computed on threads by the recursive definition and merged pairwise.
-fn spec_root_parallel(mode: &b3spec::Mode, data: &[u8], sub: usize) -> b3spec::Node {
-    assert!(sub.is_power_of_two() && sub >= 1024 && data.len() > 16 * sub && data.len() - 16 * sub <= sub);
-    let mut cvs: Vec<[u8; 32]> = std::thread::scope(|s| {
-        let hs: Vec<_> = (0..16).map(|i| s.spawn(move || b3spec::node(mode, &data[i * sub..(i + 1) * sub], (i * sub / 1024) as u64).chaining_value())).collect();
-        hs.into_iter().map(|h| h.join().expect("spec thread")).collect()
-    });
-    while cvs.len() > 1 {
-        cvs = cvs.chunks(2).map(|p| b3spec::parent_node(mode, &p[0], &p[1]).chaining_value()).collect();
-    }
-    let right = b3spec::node(mode, &data[16 * sub..], (16 * sub / 1024) as u64).chaining_value();
-    b3spec::parent_node(mode, &cvs[0], &right)
-}
-
 fn huge_data(max: usize) -> Vec<u8> {
     // 251-periodic paint, generated block-wise (stream_a is byte-wise and would take a while)
     let period: Vec<u8> = (0..251 * 4096).map(|i| (i % 251) as u8).collect();
@@ -280,11 +264,11 @@ pub fn huge_hasher(rep: &mut Report, all_plans: bool) {
     // the spec value, with the aligned 2^28-byte subtrees computed on separate threads; the same
     // composition is first checked at a small scale against the plain recursive definition
     let small = 16 * 65536 + 3 * 1024 + 77;
-    if spec_root_parallel(&mode.spec(), &data[..small], 65536).root_bytes(0, 100) != b3spec::node(&mode.spec(), &data[..small], 0).root_bytes(0, 100) {
+    if b3spec::node_parallel16(&mode.spec(), &data[..small], 65536).root_bytes(0, 100) != b3spec::node(&mode.spec(), &data[..small], 0).root_bytes(0, 100) {
         eprintln!("ORACLE-ANCHOR-FAILED: parallel composition of the spec differs from the recursive definition");
         std::process::exit(2);
     }
-    let node = spec_root_parallel(&mode.spec(), data, 1 << 28);
+    let node = b3spec::node_parallel16(&mode.spec(), data, 1 << 28);
     let exp = node.root_bytes(0, 100);
     subject::force(Some(level));
     let plans: [(&str, Vec<usize>); 4] = [
@@ -362,13 +346,13 @@ fn huge(rep: &mut Report, thorough: bool) {
     let data = huge_data(n);
     let small = 16 * 65536 + 3 * 1024 + 77;
     let hm = ModeSpec::Hash;
-    if spec_root_parallel(&hm.spec(), &data[..small], 65536).root_bytes(0, 64) != b3spec::node(&hm.spec(), &data[..small], 0).root_bytes(0, 64) {
+    if b3spec::node_parallel16(&hm.spec(), &data[..small], 65536).root_bytes(0, 64) != b3spec::node(&hm.spec(), &data[..small], 0).root_bytes(0, 64) {
         eprintln!("ORACLE-ANCHOR-FAILED: parallel composition of the spec differs from the recursive definition");
         std::process::exit(2);
     }
     subject::force(Some(level));
     for mode in [ModeSpec::Hash, ModeSpec::Keyed(*vcommon::TEST_KEY)] {
-        let node = spec_root_parallel(&mode.spec(), &data, 1 << 28);
+        let node = b3spec::node_parallel16(&mode.spec(), &data, 1 << 28);
         let mut exp = [0u8; 32];
         exp.copy_from_slice(&node.root_block(0)[..32]);
         let got = vcommon::catch(|| mode.oneshot(&data[..n]));
